@@ -30,6 +30,7 @@ Direct oracle (independent of graphiq and, except for the orbit table, of the mo
 import numpy as np
 
 from harness import graphutil as gu
+from harness import stabutil as su
 from harness import tabutil as tu
 from harness.common import Driver, Result, err_class
 
@@ -561,14 +562,33 @@ def check_tableau_pair(res, drv, t1, t2, same, inp, target=None):
     a returned gate list, run by the verified tableau model on state 1, gives exactly state 2.  A false `no` is classified by the
     dimension of the solution space on the two graphs `state_to_graph` chose (>= 5: the known finding D14)."""
     from graphiq.backends.stabilizer.functions.local_cliff_equi_check import lc_check
+    from graphiq.backends.stabilizer.clifford_tableau import CliffordTableau as _CT
 
+    # exact correspondence with the model of the tableau path (`lcCheckStates`: state_to_graph on both states, converter_gate_list on the
+    # graphs, gates1 + gate_list + reversed(gates2 with P <-> P_dag), validation) — repaired is_lc_equivalent, both inputs tableaux
+    model_line = None
+    if target is None and repaired():
+        s1 = t1.to_stabilizer() if isinstance(t1, _CT) else t1
+        s2 = t2.to_stabilizer() if isinstance(t2, _CT) else t2
+        model_line = f"lc.checkstates {su.stab_args(s1, 'a')} {su.stab_args(s2, 'b')} validate=1"
     try:
         ok, gates = lc_check(t1, t2, validate=True)
     except Exception as e:  # noqa: BLE001
         err = err_class(e)
         res.count("errors", f"tab:{err}")
         gu.viol(res, f"lc_check:tableau:raises:{err}", f"lc_check raised on two stabilizer states: {str(e)[:80]}", input=inp)
+        if model_line is not None:
+            rep = drv.ask(model_line)
+            if rep["_status"] != "err" or rep.get("_err") != err:
+                res.exact_break("lc.checkstates:error-class", input=inp, impl=f"err {err}", model=rep["_raw"][:200])
         return "raises"
+    if model_line is not None:
+        rep = drv.ask(model_line)
+        want = f"ok yes={int(bool(ok))} gates={gu.gates_str([(g[0], int(g[1])) for g in gates])}"
+        if rep["_raw"] != want:
+            res.exact_break("lc.checkstates", input=inp, impl=want[:300], model=rep["_raw"][:300])
+        else:
+            res.traces_validated += 1
     if ok and not same:
         gu.viol(res, "lc_check:tableau:false-yes", "lc_check answered yes for states whose graphs lie in different LC orbits", input=inp)
         return "false-yes"
